@@ -16,6 +16,10 @@ def run(ck):
         mprogs += machine.run_machine(ck, "Z2Z2", "abelian", "PoolZ2Z2", "OpsContract", rank=2, depth=3, mod=150, tids=_tids)
     if ck.tier != "quick":
         mprogs += machine.run_machine(ck, "Z4", "abelian", "PoolZ4", "OpsContract", rank=2, depth=3, mod=150, tids=_tids)
+    if ck.tier != "quick":
+        # rank-4 first operands over one two-charge table: every dual pattern, charge, first/last sector missing,
+        # every ordered choice of contracted axes, every mode
+        mprogs += machine.run_machine(ck, "Z2", "abelian", "PoolZ2t", "OpsContract", rank=4, depth=3, mod=300, tids=_tids, timeout=3000)
     ck.conform(mprogs)
     n = 160 if ck.tier == "quick" else 2500
     tids = gen.Tids()
